@@ -199,6 +199,10 @@ func genDoc(t *rapid.T) (Doc, string) {
 // listed in reverse dependency order (deepest first), so that in every pass exactly one object is stored and every
 // other worker of the pool ends the pass having stored nothing. Plus a few unrelated elements.
 func genChain(t *rapid.T) (Doc, Keep) {
+	return genChainN(t, rapid.IntRange(1, 8).Draw(t, "depth"))
+}
+
+func genChainN(t *rapid.T, depth int) (Doc, Keep) {
 	var d Doc
 	nn := rapid.IntRange(2, 5).Draw(t, "cn")
 	for i := 0; i < nn; i++ {
@@ -213,7 +217,6 @@ func genChain(t *rapid.T) (Doc, Keep) {
 		w.Refs = append(w.Refs, int64(i+1))
 	}
 	d.Ways = []DWay{w}
-	depth := rapid.IntRange(1, 8).Draw(t, "depth")
 	key := rapid.SampledFrom(tagKeys).Draw(t, "ck")
 	val := rapid.SampledFrom(tagVals).Draw(t, "cv")
 	for i := 0; i < depth; i++ {
@@ -302,6 +305,13 @@ func gen(t *rapid.T) Case {
 		f := genKeep(t, false)
 		c.Filter = &f
 		c.KeepTags = true
+	}
+	if vkit.Tier() == "thorough" && rapid.IntRange(0, 3999).Draw(t, "deepchain") == 1234 {
+		// thorough tier only (a case costs depth^2 object reads, 5 to 30 s): a chain of 1000 to 2600 relations listed
+		// deepest first, which takes as many passes as it is long - the least closed set has no depth limit
+		c.Doc, c.Keep = genChainN(t, rapid.SampledFrom([]int{1000, 2100, 2600}).Draw(t, "deepchainn"))
+		c.OrderKind, c.Engine, c.Repeat, c.ReadFirst = "chain", "plain", 1, 0
+		c.Procs = rapid.SampledFrom([]int{1, 4}).Draw(t, "deepchainprocs")
 	}
 	if f := rapid.IntRange(0, 11).Draw(t, "format"); f == 2 || (f < 5 && c.OrderKind == "conventional") {
 		// (more often for documents in the conventional order: their header declares them sorted)
